@@ -49,7 +49,10 @@ struct Codec<MapType<Key, T, Compare, Allocator>,
       // of each string as we will be copying them directly to our queue buffer.
       for (auto const& elem : arg)
       {
-        total_size += Codec<std::pair<Key, T>>::compute_encoded_size(conditional_arg_size_cache, elem);
+        // encode the key and the value directly; going through Codec<std::pair<Key, T>> would
+        // convert the std::pair<Key const, T> element to a temporary std::pair<Key, T> copy
+        total_size += Codec<Key>::compute_encoded_size(conditional_arg_size_cache, elem.first);
+        total_size += Codec<T>::compute_encoded_size(conditional_arg_size_cache, elem.second);
       }
     }
 
@@ -64,8 +67,8 @@ struct Codec<MapType<Key, T, Compare, Allocator>,
 
     for (auto const& elem : arg)
     {
-      Codec<std::pair<Key, T>>::encode(buffer, conditional_arg_size_cache,
-                                       conditional_arg_size_cache_index, elem);
+      Codec<Key>::encode(buffer, conditional_arg_size_cache, conditional_arg_size_cache_index, elem.first);
+      Codec<T>::encode(buffer, conditional_arg_size_cache, conditional_arg_size_cache_index, elem.second);
     }
   }
 
